@@ -2,7 +2,7 @@
 from ..registry import rule
 from ..core import origin_of_operand, AnchorMissing, comparisons, rel_str, mirror, feasible_reach
 from .common import *
-from .walrules import rule_seq_floor_on_open
+from .walrules import rule_seq_floor_on_open, rule_delete_tables_after_manifest
 from . import codec
 
 EXPLANATION = ("Structural necessary conditions of re-openability: the manifest decoder reads exactly what the encoder writes, "
@@ -182,3 +182,18 @@ def r5(cx):
         owner = f.fn_of(body).id
         cx.check(owner in ("levels::LevelManifest::next_table_id",) and meth == "fetch_add", "counter modified only by next_table_id()", "who:next_table_id|%s.%s" % (owner, meth), c.where(),
                  "the table-id counter is modified by `%s` (%s)" % (owner, meth))
+
+
+@rule("C07", "C07.R6", "the manifest on disk never references a table file that was already deleted")
+def r6(cx):
+    rule_delete_tables_after_manifest(cx)
+    f = cx.f
+    # flush: the table file exists (written + fsynced) before the manifest lists it
+    b = f.body("CoreInner::flush_immutable_to_sst")
+    fl = sites(cx, b, "MemTable::flush")
+    wr = sites(cx, b, "levels::write_manifest_to_disk")
+    dom(cx, b, fl, wr, "a flushed table is on disk before the manifest lists it")
+    mb = f.body("Compactor::merge_tables")
+    wm = sites(cx, mb, "Compactor::write_merged_table")
+    um = [c for c in mb.calls if c.bb in mb.live and f.call_must_reach(c, {"levels::write_manifest_to_disk"})]
+    dom(cx, mb, wm, um, "a compaction output is on disk before the manifest lists it")
